@@ -45,9 +45,11 @@ LiteMenu ==   \* <<lp, lq, ep, eq, frequency index>>
      << <<0, 1>>, <<0, 1>>, <<0, 1>>, <<1, 1>>, 3 >>,
      << <<0, 1>>, <<0, 1>>, <<1, 1>>, <<1, 1>>, 2 >>,
      << <<1, 4>>, <<1, 2>>, <<1, 4>>, <<1, 2>>, 2 >> >>
+(* "cyc" menu: cross product of the lambda and error lists, the frequency    *)
+(* vector cycling with the combination instead of being crossed as well      *)
 MenuSize(sh) == IF sh.menu = "lite" THEN Len(LiteMenu)
                 ELSE Len(LamList(sh, 1)) * Len(LamList(sh, 2)) * Len(ErrList(sh, 1))
-                     * Len(ErrList(sh, 2)) * Len(Freqs[sh.K])
+                     * Len(ErrList(sh, 2)) * (IF sh.menu = "cyc" THEN 1 ELSE Len(Freqs[sh.K]))
 
 Params(inst) ==
   LET sh == Shapes[inst.sh]
@@ -64,11 +66,13 @@ Params(inst) ==
       THEN [K |-> sh.K, Gp |-> inst.Gp, Gq |-> inst.Gq, tp |-> sh.tp, tq |-> sh.tq,
             lp |-> IF Len(l1) > 1 THEN lt[1] ELSE RZero, lq |-> IF Len(l2) > 1 THEN lt[2] ELSE RZero,
             ep |-> IF Len(e1) > 1 THEN lt[3] ELSE ROne,  eq |-> IF Len(e2) > 1 THEN lt[4] ELSE ROne,
-            f |-> fs[lt[5]]]
+            f |-> fs[((lt[5] - 1) % Len(fs)) + 1]]
       ELSE [K |-> sh.K, Gp |-> inst.Gp, Gq |-> inst.Gq, tp |-> sh.tp, tq |-> sh.tq,
             lp |-> l1[(m0 % Len(l1)) + 1], lq |-> l2[(m1 % Len(l2)) + 1],
             ep |-> e1[(m2 % Len(e1)) + 1], eq |-> e2[(m3 % Len(e2)) + 1],
-            f |-> fs[(m4 % Len(fs)) + 1]]
+            f |-> IF sh.menu = "cyc"
+                  THEN fs[(((m0 % Len(l1)) + (m1 % Len(l2)) + (m2 % Len(e1)) + (m3 % Len(e2))) % Len(fs)) + 1]
+                  ELSE fs[(m4 % Len(fs)) + 1]]
 
 VARIABLES inst,    \* [sh, Gp, Gq, m]
           child,   \* current progeny genotype (kind "trio") or gamete (kind "gamete")
@@ -202,6 +206,7 @@ Dump ==
 (* ------------------------------------------------------------------------ *)
 (* configurations                                                            *)
 T(K, Pp, Pq, tp, tq) == [kind |-> "trio", K |-> K, Pp |-> Pp, Pq |-> Pq, tp |-> tp, tq |-> tq, menu |-> "full"]
+TC(K, Pp, Pq, tp, tq) == [kind |-> "trio", K |-> K, Pp |-> Pp, Pq |-> Pq, tp |-> tp, tq |-> tq, menu |-> "cyc"]
 TL(K, Pp, Pq, tp, tq) == [kind |-> "trio", K |-> K, Pp |-> Pp, Pq |-> Pq, tp |-> tp, tq |-> tq, menu |-> "lite"]
 Gm(K, Pp, tp) == [kind |-> "gamete", K |-> K, Pp |-> Pp, Pq |-> 0, tp |-> tp, tq |-> 0, menu |-> "full"]
 
@@ -224,17 +229,17 @@ ShapesQuick ==
      TL(3, 4, 4, 0, 4) >>  \* clone of q
 ShapesThorough ==
   ShapesCommon \o
-  << T(3, 4, 4, 2, 2),
-     T(3, 2, 4, 1, 2),
-     T(3, 4, 4, 0, 4),
+  << TC(3, 4, 4, 2, 2),
+     TC(3, 2, 4, 1, 2),
+     TC(3, 4, 4, 0, 4),
      T(2, 6, 6, 3, 3),     \* hexaploid trio
      T(2, 6, 4, 3, 2),
      T(2, 4, 6, 2, 3),
-     T(3, 4, 4, 1, 3),     \* strongly unbalanced tetraploid
+     TC(3, 4, 4, 1, 3),    \* strongly unbalanced tetraploid
      T(2, 6, 2, 3, 1),
      T(2, 0, 6, 3, 3),
      T(4, 2, 2, 1, 1),     \* four alleles
-     T(4, 4, 2, 2, 1),
+     TL(4, 4, 2, 2, 1),
      Gm(2, 6, 3), Gm(2, 6, 2), Gm(3, 6, 3), Gm(4, 4, 2), Gm(2, 6, 6) >>
 ShapesMutant == << TL(3, 4, 4, 2, 2), TL(3, 0, 4, 2, 2), Gm(3, 4, 2) >>
 
